@@ -3,6 +3,7 @@ package engine
 import (
 	"net/http"
 	"strings"
+	"sync"
 	"sync/atomic"
 	"time"
 
@@ -336,10 +337,20 @@ func (bs *baseServer) Handshake(transportName string, ctx *types.HttpContext) (*
 	bs.clients.Store(id, socket)
 	bs.clientsCount.Add(1)
 
-	socket.Once("close", func(...any) {
-		bs.clients.Delete(id)
-		bs.clientsCount.Add(^uint64(0))
-	})
+	// the session may be closed by its peer at any moment from NewSocket on, also
+	// before the listener below exists: it is unregistered exactly once either way
+	var unregister sync.Once
+	remove := func(...any) {
+		unregister.Do(func() {
+			bs.clients.Delete(id)
+			bs.clientsCount.Add(^uint64(0))
+		})
+	}
+	socket.Once("close", remove)
+	if socket.ReadyState() == "closed" {
+		remove()
+		return nil, transport
+	}
 
 	bs.Emit("connection", socket)
 
